@@ -273,4 +273,131 @@ theorem ins_spec (key : Key) (v : Nat) (t : Node) (ks : Key) (mem : Mem) :
         | cons y ys =>
           exact (ihm (y :: ys)).lift (fun t => .node c d l t r) (by intro t; simp [Node.nodes]; omega) (by intro t; simp [Node.marked]; omega)
       · exact (ihr (x :: xs)).lift (fun t => .node c d l m t) (by intro t; simp [Node.nodes]; omega) (by intro t; simp [Node.marked]; omega)
+
+/-! ### entries, ordering and lookup -/
+
+theorem entries_head (t : Node) : ∀ x ∈ t.entries, ∃ a as, x.1 = a :: as ∧ a ∈ t.heads := by
+  induction t with
+  | nil => simp [Node.entries]
+  | node c d l m r ihl ihm ihr =>
+    intro x hx
+    simp only [Node.entries, List.mem_append, List.mem_map] at hx
+    simp only [Node.heads, List.mem_cons, List.mem_append]
+    rcases hx with ((hx | hx) | ⟨y, hy, rfl⟩) | hx
+    · cases d with
+      | none => simp at hx
+      | some e => simp at hx; subst hx; exact ⟨c, [], rfl, Or.inl rfl⟩
+    · obtain ⟨a, as, h1, h2⟩ := ihl x hx; exact ⟨a, as, h1, Or.inr (Or.inl h2)⟩
+    · exact ⟨c, y.1, rfl, Or.inl rfl⟩
+    · obtain ⟨a, as, h1, h2⟩ := ihr x hx; exact ⟨a, as, h1, Or.inr (Or.inr h2)⟩
+
+theorem entries_key_ne_nil (t : Node) (x : Key × Entry) (hx : x ∈ t.entries) : x.1 ≠ [] := by
+  obtain ⟨a, as, h, _⟩ := entries_head t x hx; rw [h]; simp
+
+/-- under the ordering invariant an entry is found by looking up the key its path spells -/
+theorem lookup_of_mem_entries (hc : CmpLaw cmp) (t : Node) (ho : t.Ordered cmp) :
+    ∀ x ∈ t.entries, t.lookup cmp x.1 = some x.2 := by
+  induction t with
+  | nil => simp [Node.entries]
+  | node c d l m r ihl ihm ihr =>
+    obtain ⟨hl, hr, ol, om, or⟩ := ho
+    intro x hx
+    simp only [Node.entries, List.mem_append, List.mem_map] at hx
+    rcases hx with ((hx | hx) | ⟨y, hy, rfl⟩) | hx
+    · cases d with
+      | none => simp at hx
+      | some e => simp at hx; subst hx; simp [Node.lookup, hc.refl]
+    · obtain ⟨a, as, h1, h2⟩ := entries_head l x hx
+      have := ihl ol x hx
+      rw [h1] at this ⊢
+      simp [Node.lookup, hl a h2, this]
+    · obtain ⟨a, as, h1, h2⟩ := entries_head m y hy
+      have := ihm om y hy
+      rw [h1] at this
+      simp only [h1, Node.lookup, hc.refl, this]
+    · obtain ⟨a, as, h1, h2⟩ := entries_head r x hx
+      have := ihr or x hx
+      rw [h1] at this ⊢
+      simp [Node.lookup, hr a h2, this]
+
+/-- whatever a lookup finds is an entry whose path spells the key -/
+theorem mem_entries_of_lookup (hc : CmpLaw cmp) (t : Node) (k : Key) (e : Entry) (hk : k ≠ [])
+    (h : t.lookup cmp k = some e) : (k, e) ∈ t.entries := by
+  induction t generalizing k with
+  | nil => simp [Node.lookup] at h
+  | node c d l m r ihl ihm ihr =>
+    cases k with
+    | nil => exact absurd rfl hk
+    | cons x xs =>
+      simp only [Node.lookup] at h
+      simp only [Node.entries, List.mem_append, List.mem_map]
+      cases hx : cmp x c <;> simp only [hx] at h
+      · exact Or.inl (Or.inl (Or.inr (ihl (x :: xs) (by simp) h)))
+      · have := (hc x c).mp hx; subst this
+        cases xs with
+        | nil => simp only at h; subst h; simp
+        | cons y ys =>
+          simp only at h
+          exact Or.inl (Or.inr ⟨(y :: ys, e), ihm (y :: ys) (by simp) h, rfl⟩)
+      · exact Or.inr (ihr (x :: xs) (by simp) h)
+
+theorem mem_entries_iff (hc : CmpLaw cmp) (t : Node) (ho : t.Ordered cmp) (k : Key) (e : Entry) :
+    (k, e) ∈ t.entries ↔ k ≠ [] ∧ t.lookup cmp k = some e :=
+  ⟨fun h => ⟨entries_key_ne_nil t _ h, lookup_of_mem_entries hc t ho _ h⟩,
+   fun h => mem_entries_of_lookup hc t k e h.1 h.2⟩
+
+/-- the keys spelled by the entries are pairwise distinct: enumeration yields each key once -/
+theorem entries_distinct (hc : CmpLaw cmp) (t : Node) (ho : t.Ordered cmp) :
+    t.entries.Pairwise (fun a b => a.1 ≠ b.1) := by
+  induction t with
+  | nil => simp [Node.entries]
+  | node c d l m r ihl ihm ihr =>
+    obtain ⟨hl, hr, ol, om, or⟩ := ho
+    simp only [Node.entries, List.pairwise_append, List.mem_append, List.mem_map]
+    refine ⟨⟨⟨?_, ihl ol, ?_⟩, ?_, ?_⟩, ihr or, ?_⟩
+    · cases d <;> simp
+    · intro a ha b hb
+      cases d with
+      | none => simp at ha
+      | some e =>
+        simp at ha; subst ha
+        obtain ⟨x, xs, h1, h2⟩ := entries_head l b hb
+        have := hc.ne_of_lt (hl x h2)
+        simp only [h1]; intro h; simp at h; exact this h.1.symm
+    · exact (List.pairwise_map).mpr ((ihm om).imp (by intro a b h; simpa using h))
+    · intro a ha b ⟨y, hy, hb⟩
+      subst hb
+      rcases ha with ha | ha
+      · cases d with
+        | none => simp at ha
+        | some e =>
+          simp at ha; subst ha
+          have := entries_key_ne_nil m y hy
+          simp only; intro h; simp at h; exact this h
+      · obtain ⟨x, xs, h1, h2⟩ := entries_head l a ha
+        have := hc.ne_of_lt (hl x h2)
+        simp only [h1]; intro h; simp at h; exact this h.1
+    · intro a ha b hb
+      obtain ⟨x', xs', g1, g2⟩ := entries_head r b hb
+      have hg := hc.ne_of_gt (hr x' g2)
+      rcases ha with (ha | ha) | ⟨y, hy, ha⟩
+      · cases d with
+        | none => simp at ha
+        | some e =>
+          simp at ha; subst ha
+          simp only [g1]; intro h; simp at h; exact hg h.1.symm
+      · obtain ⟨x, xs, h1, h2⟩ := entries_head l a ha
+        have h3 := hl x h2
+        have h4 := hr x' g2
+        simp only [h1, g1]; intro h; simp at h
+        rw [h.1, h4] at h3; cases h3
+      · subst ha
+        simp only [g1]; intro h; simp at h; exact hg h.1.symm
+
+theorem marked_eq_length (t : Node) : t.marked = t.entries.length := by
+  induction t with
+  | nil => simp [Node.marked, Node.entries]
+  | node c d l m r ihl ihm ihr =>
+    simp only [Node.marked, Node.entries, List.length_append, List.length_map, ihl, ihm, ihr]
+    cases d <;> simp <;> omega
 end CC.TST
